@@ -16,7 +16,9 @@ PLACE=$(head -3 "$SD/demo${N}_test.go" | grep -o 'place in: *[^ ]*' | sed 's/pla
 [ -z "$PLACE" ] && { echo "no 'place in:' line in demo"; exit 2; }
 cp "$SD/demo${N}_test.go" "$PLACE/zz_seed_demo_test.go"
 DEMO_PKG="./$PLACE/"
-run_demo() { go test -count=1 -vet=off "$DEMO_PKG" 2>&1 | tail -40 > "$TMP/demo.out"; grep -q '^ok' "$TMP/demo.out"; }
+TESTS=$(grep -o '^func Test[A-Za-z0-9_]*' "$SD/demo${N}_test.go" | sed 's/func //' | paste -sd'|')
+RACE=""; grep -q '"flags".*-race\|-race' "$SD/meta$N.json" && RACE="-race"
+run_demo() { go test $RACE -count=1 -vet=off -run "^($TESTS)\$" "$DEMO_PKG" 2>&1 | tail -40 > "$TMP/demo.out"; grep -q '^ok' "$TMP/demo.out"; }
 if run_demo; then echo "demo passes on unchanged tree: yes"; else echo "demo passes on unchanged tree: NO"; tail -5 "$TMP/demo.out"; fi
 patch -p1 -s < "$SD/patch$N.diff" || { echo "patch does not apply"; exit 2; }
 go build ./cmd/... ./internal/... ./config/... 2> "$TMP/build.out" && echo "builds: yes" || { echo "builds: NO"; head -5 "$TMP/build.out"; }
